@@ -366,8 +366,10 @@ class _Gen:
         scope["locals"], scope["pointers"], scope["sptrs"] = saved
 
     def stmt(self, scope, ind, out):
-        r = self.draw(st.integers(0, 99))
+        r = self.draw(st.integers(0, 105))
         deep = scope["depth"] >= 3
+        if r >= 100:
+            return self.stmt_loop_carry(scope, ind, out)
         if r < 18:
             return self.stmt_decl(scope, ind, out)
         if r < 52 or deep:
@@ -444,6 +446,40 @@ class _Gen:
                 self.stmt_assign(scope, ind, out)
         finally:
             scope["depth"] -= 1
+
+    def stmt_loop_carry(self, scope, ind, out):
+        """prev = cur inside a bounded loop, both read after the loop (the 'lost copy' shape of SSA destruction)"""
+        t = self.pick(["int", "unsigned int", "long", "unsigned char", "short"])
+        prev, cur, w = self.fresh("v"), self.fresh("v"), self.fresh("w")
+        k = self.draw(st.integers(1, 4))
+        out.append("%s%s %s = %s;" % (ind, t, prev, literal(self.draw(st.integers(0, 9)), promote(t))))
+        out.append("%s%s %s = %s;" % (ind, t, cur, literal(self.draw(st.integers(0, 9)), promote(t))))
+        out.append("%sint %s = %d;" % (ind, w, k))
+        kind = self.draw(st.integers(0, 2))
+        step = self.pick(["%s = (%s)(%s + %d);" % (cur, t, cur, self.draw(st.integers(1, 5))), "%s = (%s)(%s * 3 + 1);" % (cur, t, cur), "%s++;" % cur])
+        body = ["%s  %s = %s;" % (ind, prev, cur), "%s  %s" % (ind, step), "%s  %s--;" % (ind, w)]
+        if kind == 0:
+            out.append("%sdo {" % ind)
+            out.extend(body)
+            out.append("%s} while (%s > 0);" % (ind, w))
+        elif kind == 1:
+            out.append("%swhile (%s > 0) {" % (ind, w))
+            out.extend(body)
+            out.append("%s}" % ind)
+        else:
+            out.append("%sfor (; %s > 0; ) {" % (ind, w))
+            out.extend(body)
+            out.append("%s}" % ind)
+        if self.chance(50):
+            out.append("%sif (%s > 1) { %s--; }" % (ind, prev, prev))
+        scope["locals"].append((prev, t))
+        scope["locals"].append((cur, t))
+        scope["loopvars"].add(w)
+        lv = [(l, lt) for l, lt in self.lvalues(scope) if not is_float(lt) and l not in (prev, cur)]
+        if lv:
+            l, lt = self.pick(lv)
+            out.append("%s%s = %s * 10 + %s;" % (ind, l, prev, cur))
+        self.features.add("loop_carried_value_used_after_loop")
 
     def maybe_break(self, scope, ind, out):
         if self.chance(30):
